@@ -1688,9 +1688,13 @@ class Scheduler:
         # Set eval_args on job.
         job.eval_args = eval_args
 
-        # Preprocess arguments before sending them to task function.
-        args, kwargs = job.eval_args
-        args, kwargs = job.args = self._preprocess_args(job, args, kwargs)
+        # Preprocess arguments before sending them to task function. A job that is re-entering
+        # after waiting for resource limits keeps its preprocessed arguments: preprocessing again
+        # would fork its Handles a second time under a new, timing dependent, fork key.
+        if job.args is None:
+            args, kwargs = job.eval_args
+            job.args = self._preprocess_args(job, args, kwargs)
+        args, kwargs = job.args
 
         # Check cache using eval_hash as key.
         job.eval_hash, job.args_hash = hash_args_eval(self.type_registry, job.task, args, kwargs)
